@@ -227,10 +227,14 @@ func (b *borrowState) call(fn *ssa.Function, call ssa.CallInstruction, x ssa.Val
 			// outside the module: the standard library and the decoders used here
 			// (encoding/binary, cbor) do not retain their input; the two that do are
 			// treated as returning an alias.
-			switch f.String() {
-			case "bytes.NewReader", "bytes.NewBuffer":
-				if v := call.Value(); v != nil {
-					keep(call, "wrapped by "+f.String()+" (the reader keeps the slice)")
+			switch fs := f.String(); {
+			case fs == "bytes.NewReader" || fs == "bytes.NewBuffer":
+				keep(call, "wrapped by "+fs+" (the reader keeps the slice)")
+			case strings.HasPrefix(fs, "(*github.com/dgraph-io/badger/v4.WriteBatch).") || strings.HasPrefix(fs, "(*github.com/dgraph-io/badger/v4.Txn).Set") || strings.HasPrefix(fs, "(*github.com/dgraph-io/badger/v4.Txn).Delete") || fs == "github.com/dgraph-io/badger/v4.NewEntry":
+				for i, a := range args {
+					if a == x && i > 0 {
+						keep(call, "queued in "+fs+" (badger keeps the slice until the batch/transaction is written)")
+					}
 				}
 			}
 			continue
